@@ -1,6 +1,5 @@
 (* Proofs for C12, part 2: the real-number reading (instance RNum) of the test
-   statistics, of (p, p_sigma), of the polynomial inversions and of the final
-   interpolation step. *)
+   statistics, of (p, p_sigma), of and of the polynomial inversions. *)
 From Coq Require Import Reals ZArith List Bool Lia Lra Psatz.
 From Sky Require Import Result PyList Num NumR G_stat M_Stat S_Stat P_Stat.
 Import ListNotations.
@@ -51,28 +50,6 @@ Section R.
     intros Ha HD. unfold poly_inv2. num_R.
     replace (b * b - 4 * a * (c - p)) with (b * b - 4 * a * (c - p)) by ring.
     field. exact Ha.
-  Qed.
-
-  Lemma K_est_delta_p p0 p : est_delta_p N p0 p = Rabs (p0 - p).
-  Proof. unfold est_delta_p. num_R. reflexivity. Qed.
-  Lemma K_est_same_p p0 p1 : est_same_p N p0 p1 = true <-> p0 = p1.
-  Proof. unfold est_same_p. num_R. apply Reqb_true. Qed.
-  Lemma K_est_mu_mid a b : est_mu_mid N a b = (a + b) / 2.
-  Proof. unfold est_mu_mid. num_R. field. Qed.
-  Lemma K_est_dns_dp ns1 ns0 p1 p0 : est_dns_dp N ns1 ns0 p1 p0 = Rabs ((ns1 - ns0) / (p1 - p0)).
-  Proof. unfold est_dns_dp. num_R. reflexivity. Qed.
-  Lemma K_est_p0_above p0 p : est_p0_above N p0 p = true <-> p < p0.
-  Proof. unfold est_p0_above. num_R. apply Rltb_true. Qed.
-  Lemma K_est_mu_down ns0 d dp : est_mu_down N ns0 d dp = ns0 - d * dp.
-  Proof. unfold est_mu_down. num_R. reflexivity. Qed.
-  Lemma K_est_mu_up ns0 d dp : est_mu_up N ns0 d dp = ns0 + d * dp.
-  Proof. unfold est_mu_up. num_R. reflexivity. Qed.
-  Lemma K_est_deg_is1 r n : est_deg_is1 N r n = true <-> (n < 5)%Z \/ r < 3 / 2.
-  Proof.
-    unfold est_deg_is1. num_R. rewrite orb_true_iff, !Rltb_true.
-    split; intros [H|H]; auto; left.
-    - apply lt_IZR. exact H.
-    - apply IZR_lt. exact H.
   Qed.
 
   (* ---------------------------------------------------------------- sign *)
@@ -236,7 +213,7 @@ Section R.
     a <> 0 -> ((exists y, quadratic a b c y = p) <-> 0 <= b * b - 4 * a * (c - p)).
   Proof.
     intros Ha. split.
-    - intros [y Hy]. rewrite <- (quad_root_disc _ _ _ _ _ Hy). nra.
+    - intros [y Hy]. rewrite <- (quad_root_disc _ _ _ _ _ Hy). exact (Rle_0_sqr _).
     - intros HD. exists ((- b + sqrt (b * b - 4 * a * (c - p))) / (2 * a)).
       apply quad_root_of_sqrt; auto. field. exact Ha.
   Qed.
@@ -291,7 +268,7 @@ Section R.
     destruct (polyfit deg) as [params|er]; cbn [bind]; [|reflexivity].
     destruct (deg =? 2)%Z eqn:E2.
     - apply Z.eqb_eq in E2. subst deg.
-      destruct (py_get params 0%Z) as [a0|er]; cbn [bind]; [|reflexivity].
+      destruct (py_get params 0%Z) as [a0|er] eqn:EA0; cbn [bind]; [|reflexivity].
       destruct (poly_fallback N 2 a0) eqn:EF.
       + apply K_poly_fallback in EF. destruct EF as [_ EF].
         destruct (Rlt_dec 0 a0); [|contradiction].
@@ -303,7 +280,7 @@ Section R.
         assert (H1 : poly_is1 2 = false).
         { destruct (poly_is1 2) eqn:E; [apply K_poly_is1 in E; discriminate|reflexivity]. }
         assert (H2 : poly_is2 2 = true) by (apply K_poly_is2; reflexivity).
-        rewrite H1, H2. reflexivity.
+        rewrite H1, H2, EA0. reflexivity.
     - cbn [bind fst snd]. destruct (deg =? 1)%Z eqn:E1.
       + apply Z.eqb_eq in E1. subst deg.
         assert (H1 : poly_is1 1 = true) by (apply K_poly_is1; reflexivity). rewrite H1. reflexivity.
@@ -372,7 +349,7 @@ Section R.
     - rewrite P2. cbn [bind]. change (2 =? 2)%Z with true. rewrite A2. cbn [bind].
       destruct (Rlt_dec 0 a2).
       + rewrite P1. cbn [bind]. rewrite A1, B1. cbn [bind]. eauto.
-      + rewrite A2, B2, C2. cbn [bind]. eauto.
+      + rewrite B2, C2. cbn [bind]. eauto.
   Qed.
 
   Lemma poly_fit_bad_degree polyfit deg p cs :
@@ -383,83 +360,6 @@ Section R.
     apply Z.eqb_neq in H1, H2. rewrite H1, H2. reflexivity.
   Qed.
 
-  (* ---------------------------------------------------------------- final interpolation step *)
-  Lemma est_linear_char ns0 ns1 p0 p1 p :
-    est_linear N ns0 ns1 p0 p1 p =
-      if Req_EM_T p0 p1 then (ns0 + ns1) / 2
-      else if Rlt_dec p p0 then ns0 - Rabs ((ns1 - ns0) / (p1 - p0)) * Rabs (p0 - p)
-           else ns0 + Rabs ((ns1 - ns0) / (p1 - p0)) * Rabs (p0 - p).
-  Proof.
-    unfold est_linear.
-    destruct (est_same_p N p0 p1) eqn:ES.
-    - apply K_est_same_p in ES. destruct (Req_EM_T p0 p1); [|contradiction]. apply K_est_mu_mid.
-    - destruct (Req_EM_T p0 p1) as [E|E]; [apply K_est_same_p in E; congruence|].
-      rewrite K_est_dns_dp, K_est_delta_p, K_est_mu_down, K_est_mu_up.
-      destruct (est_p0_above N p0 p) eqn:EA.
-      + apply K_est_p0_above in EA. destruct (Rlt_dec p p0); [reflexivity|contradiction].
-      + destruct (Rlt_dec p p0) as [H|H]; [apply K_est_p0_above in H; congruence|reflexivity].
-  Qed.
-
-  Lemma est_linear_rising ns0 ns1 p0 p1 p :
-    0 < (ns1 - ns0) * (p1 - p0) ->
-    secant ns0 ns1 p0 p1 (est_linear N ns0 ns1 p0 p1 p) = p.
-  Proof.
-    intros Hr. rewrite est_linear_char.
-    assert (Hn : ns1 - ns0 <> 0) by (intros H; rewrite H in Hr; lra).
-    assert (Hp : p1 - p0 <> 0) by (intros H; rewrite H in Hr; lra).
-    destruct (Req_EM_T p0 p1); [lra|].
-    assert (Hq : 0 < (ns1 - ns0) / (p1 - p0)).
-    { replace ((ns1 - ns0) / (p1 - p0)) with ((ns1 - ns0) * (p1 - p0) * (/ (p1 - p0) * / (p1 - p0))) by (field; exact Hp).
-      apply Rmult_lt_0_compat; [exact Hr|]. apply Rmult_lt_0_compat_sq. apply Rinv_neq_0_compat. exact Hp. }
-    rewrite (Rabs_pos_eq ((ns1 - ns0) / (p1 - p0))) by lra.
-    unfold secant. destruct (Rlt_dec p p0).
-    - rewrite Rabs_pos_eq by lra. field. split; assumption.
-    - rewrite Rabs_left1 by lra. field. split; assumption.
-  Qed.
-
-  (* with a falling secant (possible with noise) the absolute value mirrors the
-     step: the secant takes the value 2 p0 - p there *)
-  Lemma est_linear_falling ns0 ns1 p0 p1 p :
-    (ns1 - ns0) * (p1 - p0) < 0 ->
-    secant ns0 ns1 p0 p1 (est_linear N ns0 ns1 p0 p1 p) = 2 * p0 - p.
-  Proof.
-    intros Hr. rewrite est_linear_char.
-    assert (Hn : ns1 - ns0 <> 0) by (intros H; rewrite H in Hr; lra).
-    assert (Hp : p1 - p0 <> 0) by (intros H; rewrite H in Hr; lra).
-    destruct (Req_EM_T p0 p1); [lra|].
-    assert (Hq : (ns1 - ns0) / (p1 - p0) < 0).
-    { replace ((ns1 - ns0) / (p1 - p0)) with (- (- ((ns1 - ns0) * (p1 - p0)) * (/ (p1 - p0) * / (p1 - p0)))) by (field; exact Hp).
-      assert (0 < - ((ns1 - ns0) * (p1 - p0)) * (/ (p1 - p0) * / (p1 - p0))).
-      { apply Rmult_lt_0_compat; [lra|]. apply Rmult_lt_0_compat_sq. apply Rinv_neq_0_compat. exact Hp. }
-      lra. }
-    rewrite (Rabs_left ((ns1 - ns0) / (p1 - p0))) by lra.
-    unfold secant. destruct (Rlt_dec p p0).
-    - rewrite Rabs_pos_eq by lra. field. split; assumption.
-    - rewrite Rabs_left1 by lra. field. split; assumption.
-  Qed.
-
-  Lemma est_final_char polyfit n r ns0 ns1 p0 p1 p :
-    est_final N polyfit n r ns0 ns1 p0 p1 p =
-      if (2 <? n)%Z then
-        polynomial_fit N polyfit (if orb (n <? 5)%Z (Rltb r (3 / 2)) then 1%Z else 2%Z) p
-      else Ok (est_linear N ns0 ns1 p0 p1 p).
-  Proof.
-    unfold est_final. destruct K_est_deg as [D1 D2]. rewrite D1, D2.
-    assert (H1 : est_use_poly n = (2 <? n)%Z).
-    { destruct (est_use_poly n) eqn:E, (2 <? n)%Z eqn:E'; try reflexivity.
-      - apply K_est_use_poly in E. apply Z.ltb_ge in E'. lia.
-      - apply Z.ltb_lt, K_est_use_poly in E'. congruence. }
-    assert (H2 : est_deg_is1 N r n = orb (n <? 5)%Z (Rltb r (3 / 2))).
-    { destruct (est_deg_is1 N r n) eqn:E.
-      - apply K_est_deg_is1 in E. symmetry. apply orb_true_iff.
-        destruct E as [E|E]; [left; apply Z.ltb_lt; exact E | right; apply Rltb_true; exact E].
-      - symmetry. apply orb_false_iff. split.
-        + apply Z.ltb_ge. destruct (Z.lt_ge_cases n 5) as [H|H]; [|lia].
-          assert (est_deg_is1 N r n = true) by (apply K_est_deg_is1; auto). congruence.
-        + apply Rltb_false. intros H.
-          assert (est_deg_is1 N r n = true) by (apply K_est_deg_is1; auto). congruence. }
-    rewrite H1, H2. reflexivity.
-  Qed.
 End R.
 
 (* ------------------------------------------------------------------ computability, for every number system *)
